@@ -270,7 +270,34 @@ class Array(Base):
             return arg.to(unit)
         return arg
 
+    def _wrap_power(self, func, base, exponent, **kwargs):
+        """
+        The unit of a power depends on the value of the exponent, which must be a pure
+        number: ``unit ** k`` for a single exponent ``k``; if the exponents differ from
+        one element to the next, the base has to be a pure number as well.
+        """
+        if isinstance(exponent, Quantity):
+            exponent = self.__class__(exponent)
+        if isinstance(exponent, self.__class__):
+            exponent = exponent.to("dimensionless")._array
+        exponent = np.asarray(exponent)
+        if not isinstance(base, self.__class__):
+            base = self.__class__(base)
+        if exponent.size > 0 and np.all(exponent == exponent.flat[0]):
+            unit = ((1.0 * base.unit) ** exponent.flat[0].item()).units
+        else:
+            base = base.to("dimensionless")
+            unit = base.unit
+        out = self._extract_arrays_from_kwargs(kwargs)
+        result = func(base._array, exponent, **out)
+        if "out" in kwargs:
+            kwargs["out"][0].unit = unit
+            return kwargs["out"][0]
+        return self.__class__(values=result, unit=unit)
+
     def _wrap_numpy(self, func, *args, **kwargs):
+        if func.__name__ == "power" and len(args) == 2:
+            return self._wrap_power(func, *args, **kwargs)
         reference = self
         if func.__name__ not in APPLY_OP_TO_UNIT:
             found = self._reference_operand(args)
